@@ -170,14 +170,16 @@ func newBridgeSync(
 		return nil, err
 	}
 
-	if lastProcessedBlock < initialBlock {
-		block, err := ethClient.BlockByNumber(ctx, new(big.Int).SetUint64(initialBlock))
+	// InitialBlockNum is the first block to be queried: mark its predecessor as processed, so that the
+	// events of the initial block itself are downloaded
+	if initialBlock > 0 && lastProcessedBlock < initialBlock-1 {
+		block, err := ethClient.BlockByNumber(ctx, new(big.Int).SetUint64(initialBlock-1))
 		if err != nil {
-			return nil, fmt.Errorf("failed to get initial block %d: %w", initialBlock, err)
+			return nil, fmt.Errorf("failed to get initial block %d: %w", initialBlock-1, err)
 		}
 
 		err = processor.ProcessBlock(ctx, sync.Block{
-			Num:  initialBlock,
+			Num:  initialBlock - 1,
 			Hash: block.Hash(),
 		})
 		if err != nil {
